@@ -4,6 +4,7 @@
 -/
 import Rivia.Lemmas.MoveRefine
 import Rivia.Spec.CopySpec
+import Rivia.Lemmas.ModeBits
 
 set_option linter.unusedSimpArgs false
 
@@ -266,9 +267,15 @@ theorem copyM_file {env : Env} {a b : Str} {c : CopyOpts} {s : State} {sk dk : F
   rw [hstep]
   rfl
 
+theorem or_sub_typebit {x : Nat} (h : x < 0o100000) : (x ||| 0o100000) - 0o100000 = x := by
+  have h1 : (0o100000 : Nat) = 2 ^ 15 * 1 := by decide
+  have h2 := Nat.two_pow_add_eq_or_of_lt (i := 15) (b := x) (by simpa using h) 1
+  rw [Nat.or_comm, h1, ← h2]
+  omega
+
 /-- the abstract node of the new file -/
 def copiedFileNode (c : CopyOpts) (srcE : Entry) (bytes : File.Bytes) : Node :=
-  { kind := .file, perm := (((copyFileMode c).getD srcE.mode) ||| 0o100000) - 0o100000,
+  { kind := .file, perm := ((copyFileMode c).getD srcE.mode) &&& 0o7777,
     uid := srcE.uid, gid := srcE.gid, target := none, data := bytes }
 
 /-- **the single-file case, abstractly**: exactly one node is new, everything else is as before -/
@@ -283,9 +290,10 @@ theorem nodeAt_fileCopied {s : State} {D : FsPath} {c : CopyOpts} {srcE pe : Ent
   by_cases hk : D = k
   · subst hk
     rw [if_neg hdd, if_pos rfl, if_pos rfl]
-    simp only [Option.map_some, absNode, kindOf, Entry.setMode, optsMode, hlink, hfile, hdir,
-      alLookup_alInsert_self, copiedFileNode, Bool.false_eq_true, if_false, if_true, typeBits,
-      Option.getD_some]
+    simp only [Option.map_some, absNode, kindOf, Entry.setMode, ModeBits.optsMode_some, hlink, hfile,
+      hdir, alLookup_alInsert_self, copiedFileNode, Bool.false_eq_true, if_false, if_true, typeBits,
+      Option.getD_some,
+      or_sub_typebit (Nat.lt_trans (ModeBits.and_perm_lt _) (by decide : 0o10000 < 0o100000))]
   · simp only [if_neg hk]
     by_cases hk2 : D.dropLast = k
     · subst hk2
@@ -471,12 +479,6 @@ theorem copySpec_file {s : State} {sk dk : FsPath} {srcE pe : Entry} (hi : InvF 
     obtain ⟨n, hn, hk⟩ := hancget q hq
     simp [hn, hk] at hq2
 
-theorem or_sub_typebit {x : Nat} (h : x < 0o100000) : (x ||| 0o100000) - 0o100000 = x := by
-  have h1 : (0o100000 : Nat) = 2 ^ 15 * 1 := by decide
-  have h2 := Nat.two_pow_add_eq_or_of_lt (i := 15) (b := x) (by simpa using h) 1
-  rw [Nat.or_comm, h1, ← h2]
-  omega
-
 theorem copyFileMode_eq (c : CopyOpts) : copyFileMode c = filePerm c.mode c.cdirs c.cfiles := by
   unfold copyFileMode filePerm
   cases c.mode <;> cases c.cfiles <;> cases c.cdirs <;> simp
@@ -486,30 +488,42 @@ theorem copyDirMode_eq (c : CopyOpts) : copyDirMode c = dirPerm c.mode c.cdirs c
   cases c.mode <;> cases c.cfiles <;> cases c.cdirs <;> simp
 
 
-theorem getD_perm_eq' {m T : Nat} (o : Option Nat) (hmode : m ||| T = m)
-    (hperm : ∀ x, o = some x → (x ||| T) - T = x) :
-    (o.getD m ||| T) - T = o.getD (m - T) := by
-  cases o with
-  | none => 
-    show (m ||| T) - T = m - T
-    rw [hmode]
-  | some x =>
-    show (x ||| T) - T = x
-    exact hperm x rfl
+/-- a stored mode in canonical form (permission bits plus the type bits `T`): its permission part -/
+theorem canon_sub {m T : Nat} (hT : ∀ x, x < 0o10000 → (x ||| T) - T = x)
+    (hmode : (m &&& 0o7777) ||| T = m) : m - T = m &&& 0o7777 := by
+  have := hT _ (ModeBits.and_perm_lt m)
+  rw [hmode] at this
+  exact this
 
-theorem getD_perm_eq {m : Nat} (o : Option Nat) (hmode : m ||| 0o100000 = m)
-    (hperm : ∀ x, o = some x → x < 0o100000) :
-    (o.getD m ||| 0o100000) - 0o100000 = o.getD (m - 0o100000) :=
-  getD_perm_eq' o hmode (fun x hx => or_sub_typebit (hperm x hx))
+/-- the permission bits `set_mode`/`mkdir_m` keep of the given-or-source mode are the reference's
+    given-or-source permission (source mode canonical, given mode a permission value) -/
+theorem getD_perm_eq' {m T : Nat} (o : Option Nat) (hT : ∀ x, x < 0o10000 → (x ||| T) - T = x)
+    (hmode : (m &&& 0o7777) ||| T = m)
+    (hperm : ∀ x, o = some x → x < 0o10000) :
+    o.getD m &&& 0o7777 = o.getD (m - T) := by
+  cases o with
+  | none =>
+    show m &&& 0o7777 = m - T
+    exact (canon_sub hT hmode).symm
+  | some x =>
+    show x &&& 0o7777 = x
+    exact ModeBits.and_perm_of_lt x (hperm x rfl)
+
+theorem getD_perm_eq {m : Nat} (o : Option Nat) (hmode : (m &&& 0o7777) ||| 0o100000 = m)
+    (hperm : ∀ x, o = some x → x < 0o10000) :
+    o.getD m &&& 0o7777 = o.getD (m - 0o100000) :=
+  getD_perm_eq' o (fun _ hx => or_sub_typebit (Nat.lt_trans hx (by decide))) hmode hperm
 
 theorem typeBits_file : typeBits Kind.file = 0o100000 := rfl
 
-/-- the new abstract node is the reference's copy of the source node -/
+/-- the new abstract node is the reference's copy of the source node.  `hmode`: the source mode is
+    canonical (permission bits plus the file type bit — what every `optsMode` result is); `hperm`: a
+    given mode is a permission value (the reference stores it uninterpreted, Memfs masks it) -/
 theorem copiedFileNode_eq {s : State} {sk : FsPath} {c : CopyOpts} {srcE : Entry} {bytes : File.Bytes}
     (hlink : srcE.link = false) (hdir : srcE.dir = false)
     (hbytes : alLookup sk s.files = some bytes)
-    (hmode : srcE.mode ||| 0o100000 = srcE.mode)
-    (hperm : ∀ x, c.mode = some x → x < 0o100000) :
+    (hmode : (srcE.mode &&& 0o7777) ||| 0o100000 = srcE.mode)
+    (hperm : ∀ x, c.mode = some x → x < 0o10000) :
     copiedFileNode c srcE bytes =
       { absNode s sk srcE with
         perm := (filePerm c.mode c.cdirs c.cfiles).getD (absNode s sk srcE).perm } := by
@@ -538,8 +552,8 @@ theorem copy_file_refines {env : Env} {a b : Str} {c : CopyOpts} {s : State} {sk
     (hfree : alLookup (copyDst s sk dk) s.entries = none)
     (hpar : alLookup (copyDst s sk dk).dropLast s.entries = some pe) (hped : pe.dir = true)
     (hpel : pe.link = false)
-    (hmode : srcE.mode ||| 0o100000 = srcE.mode)
-    (hperm : ∀ x, c.mode = some x → x < 0o100000) :
+    (hmode : (srcE.mode &&& 0o7777) ||| 0o100000 = srcE.mode)
+    (hperm : ∀ x, c.mode = some x → x < 0o10000) :
     ∃ s', copyM env a b c s = (.ok (), s') ∧
       (copySpec (absS s) sk dk c.mode c.cdirs c.cfiles).1 = .ok () ∧
       TEquiv (absS s') (copySpec (absS s) sk dk c.mode c.cdirs c.cfiles).2 := by
